@@ -126,6 +126,20 @@ fn curve_ops(cat: &mut Cat, name: &str, w: Cub, s: f64) {
         for sec in walk_curve_evenly(&c, s, 0.1 * s).vary_by(vec![s, 0.0, s].into_iter().cycle()) { let (a, b) = sec.original_curve_t_values(); f1(&format!("section {} start", k), a)?; f1(&format!("section {} end", k), b)?; k += 1; if k > WALK_CAP { return Err(format!("more than {} sections (counted as non-finite output: the iterator does not end)", WALK_CAP)); } }
         Ok(())
     });
+    // a zero or negative distance is clamped to 1e-10 by the library: on a curve of scale 1e-9 that is a walk of tens to hundreds of sections
+    // (at scale 1 it would be 1e11 sections, which is not run)
+    if s <= 1e-9 {
+        let walks0 = [(0.0, 0.1 * s), (-1.0, 0.1 * s), (0.0, 0.0)];
+        run(cat, "walk_curve_evenly_distance_not_positive", e, &format!("{} (distance, max_error) in {:?}", inp, walks0), move || {
+            let c = lib_curve(&w);
+            for (i, (d, me)) in walks0.iter().enumerate() {
+                step(i);
+                let mut k = 0;
+                for sec in walk_curve_evenly(&c, *d, *me) { let (a, b) = sec.original_curve_t_values(); f1(&format!("walk {} section {} start", i, k), a)?; f1(&format!("walk {} section {} end", i, k), b)?; k += 1; if k > WALK_CAP { return Err(format!("walk {}: more than {} sections, the last one is {:?} (counted as non-finite output: the iterator does not end)", i, WALK_CAP, (a, b))); } }
+            }
+            Ok(())
+        });
+    }
     run(cat, "walk_curve_unevenly", e, &format!("{} n in [0, 1, 7]", inp), move || { let c = lib_curve(&w); for (i, n) in [0usize, 1, 7].iter().enumerate() { step(i); for sec in walk_curve_unevenly(&c, *n).take(100) { let (a, b) = sec.original_curve_t_values(); f1("section start", a)?; f1("section end", b)?; f2("section start point", sec.start_point())?; let (p, q) = sec.control_points(); f2("section cp1", p)?; f2("section cp2", q)?; } } Ok(()) });
     run(cat, "fit_curve_20_samples", e, &format!("{} points = point_at_pos(k/19) for k in 0..20, max_error={:?}", inp, 0.1 * s), move || { let c = lib_curve(&w); let pts: Vec<Coord2> = (0..20).map(|k| c.point_at_pos(k as f64 / 19.0)).collect(); step(1); match fit_curve::<Curve<Coord2>>(&pts, 0.1 * s) { Some(f) => fchain("fit", &f), None => Ok(()) } });
     let d = 2.0 * s;
